@@ -231,7 +231,7 @@ public:
      */
     auto size() const -> size_t
     {
-        std::atomic_thread_fence(std::memory_order_acquire);
+        std::lock_guard guard{m_lock};
         return m_keyed_elements.size();
     }
 
@@ -352,7 +352,7 @@ private:
     }
 
     /// Thread lock for all mutations.
-    mutex<thread_safe_type> m_lock;
+    mutable mutex<thread_safe_type> m_lock;
 
     /// The keyed lookup data structure, the value is the keyed_element struct
     /// which is an iterator to the associated m_ttl_list TTlElement.
